@@ -28,6 +28,7 @@ def codeOf : Option VId → Nat
 
 def rfTok : R.RFun := fun x => match x with | none => "none" | some v => s!"v{v}"
 def rfRepr : R.RFun := fun x => match x with | none => "None" | some v => s!"r{v}"
+def rfDup : R.RFun := fun x => match x with | none => "none" | some v => s!"w{v % 2}"   -- not injective
 def sortKey (k : Nat) : Option VId → Nat := fun x => (codeOf x * (k + 1)) % 7
 
 def pumlOpts : Nat → R.POpts
@@ -349,7 +350,7 @@ def step (st : DState) (line : String) : DState × String :=
     match parseId 'V' u, parseOptNat sort with
     | some u, some sort =>
       if !(w.isUni u) then bad else
-      match R.basicRender w filterTable u (if rf == "repr" then rfRepr else rfTok) (sort.map sortKey) with
+      match R.basicRender w filterTable u (if rf == "repr" then rfRepr else if rf == "dup" then rfDup else rfTok) (sort.map sortKey) with
       | .error e => (st, errLine e)
       | .ok none => (st, "ok none")
       | .ok (some str) => (st, "ok " ++ str.replace "\n" "|")
